@@ -42,6 +42,21 @@ Definition valid_digest (s : str) : bool :=
       end
   end.
 
+(* Digest.Validate assembled from go-digest's own table (Generated go_digest_algorithms: name,
+   2 * hash size, anchored regex of the encoded part, read off the pinned module's algorithm.go on
+   every run): the algorithm must be available AND in the table, the encoded part must have the
+   table's length AND match the table's regex.  This is what the correspondence runs for the digest
+   component; Proofs/RefGrammar.v proves it equal to [valid_digest], the closed form of the theorems. *)
+Definition valid_digest_gen (s : str) : bool :=
+  match split_first c_colon s with
+  | None => false
+  | Some (alg, enc) =>
+      match find (fun p => str_eqb (fst (fst p)) alg) go_digest_algorithms with
+      | Some (_, n, r) => avail alg && Nat.eqb (length enc) n && matches r enc
+      | None => false
+      end
+  end.
+
 Section WithRegistry.
   Variable valid_registry : str -> bool.
 
